@@ -48,28 +48,39 @@ Inductive err := ENotImplemented | EValue | EKey.
 
 (* ------------------------------------------------------------ equalities *)
 
-Definition Q_eq_dec (a b : Q) : {a = b} + {a <> b}.
-Proof. decide equality; [apply Pos.eq_dec | apply Z.eq_dec]. Defined.
-Definition ostring_eq_dec (a b : option string) : {a = b} + {a <> b}.
-Proof. decide equality; apply string_dec. Defined.
-Definition onat_eq_dec (a b : option nat) : {a = b} + {a <> b}.
-Proof. decide equality; apply Nat.eq_dec. Defined.
-Definition particle_eq_dec (a b : particle) : {a = b} + {a <> b}.
-Proof.
-  decide equality; try apply string_dec; try apply Nat.eq_dec; try apply Q_eq_dec;
-    apply ostring_eq_dec.
-Defined.
-Definition state_eq_dec (a b : state) : {a = b} + {a <> b}.
-Proof. decide equality; [apply Z.eq_dec | apply particle_eq_dec]. Defined.
-Definition swid_eq_dec (a b : swid) : {a = b} + {a <> b}.
-Proof. decide equality; [apply state_eq_dec | apply Z.eq_dec]. Defined.
-Definition interaction_eq_dec (a b : interaction) : {a = b} + {a <> b}.
-Proof. decide equality; [apply string_dec | apply onat_eq_dec]. Defined.
-Definition decay_eq_dec (a b : decay) : {a = b} + {a <> b}.
-Proof. decide equality; try apply swid_eq_dec; apply interaction_eq_dec. Defined.
+(* short-circuit conjunction: [andb] is strict under vm_compute *)
+Notation "a &&& b" := (if a then b else false) (at level 40, left associativity).
 
+(* Boolean structural equalities (= Python's attrs-generated __eq__ on the serialised data);
+   cheap, discriminating fields first.  Their correctness lemmas are in Selector_proofs.v. *)
+Definition Q_eqb (a b : Q) : bool := Z.eqb (Qnum a) (Qnum b) &&& Pos.eqb (Qden a) (Qden b).
+Definition ostring_eqb (a b : option string) : bool :=
+  match a, b with Some x, Some y => String.eqb x y | None, None => true | _, _ => false end.
+Definition onat_eqb (a b : option nat) : bool :=
+  match a, b with Some x, Some y => Nat.eqb x y | None, None => true | _, _ => false end.
 Definition oZ_eqb (a b : option Z) : bool :=
   match a, b with Some x, Some y => Z.eqb x y | None, None => true | _, _ => false end.
+Definition particle_eqb (a b : particle) : bool :=
+  String.eqb (p_name a) (p_name b) &&& Nat.eqb (p_spin2 a) (p_spin2 b)
+  &&& Q_eqb (p_mass a) (p_mass b) &&& Q_eqb (p_width a) (p_width b)
+  &&& ostring_eqb (p_latex a) (p_latex b) &&& String.eqb (p_rest a) (p_rest b).
+Definition state_eqb (a b : state) : bool :=
+  Z.eqb (s_proj2 a) (s_proj2 b) &&& particle_eqb (s_part a) (s_part b).
+Definition swid_eqb (a b : swid) : bool :=
+  Z.eqb (w_id a) (w_id b) &&& state_eqb (w_state a) (w_state b).
+Definition interaction_eqb (a b : interaction) : bool :=
+  onat_eqb (i_l a) (i_l b) &&& String.eqb (i_rest a) (i_rest b).
+Definition decay_eqb (a b : decay) : bool :=
+  Z.eqb (w_id (d_parent a)) (w_id (d_parent b)) &&& Z.eqb (w_id (d_c1 a)) (w_id (d_c1 b))
+  &&& Z.eqb (w_id (d_c2 a)) (w_id (d_c2 b)) &&& interaction_eqb (d_int a) (d_int b)
+  &&& swid_eqb (d_c1 a) (d_c1 b) &&& swid_eqb (d_c2 a) (d_c2 b) &&& swid_eqb (d_parent a) (d_parent b).
+
+Fixpoint list_eqb {X} (f : X -> X -> bool) (l l' : list X) : bool :=
+  match l, l' with
+  | [], [] => true
+  | x :: r, y :: r' => f x y &&& list_eqb f r r'
+  | _, _ => false
+  end.
 
 (* --------------------------------------------------- topology and decays *)
 
@@ -171,14 +182,14 @@ Definition choices := list (decay * builder).
 Fixpoint lookup (ch : choices) (d : decay) : option builder :=
   match ch with
   | [] => None
-  | (d', b) :: r => if decay_eq_dec d' d then Some b else lookup r d
+  | (d', b) :: r => if decay_eqb d' d then Some b else lookup r d
   end.
 
 (* dict[d] = b : overwrite in place, or append a new key *)
 Fixpoint set_key (ch : choices) (d : decay) (b : builder) : choices :=
   match ch with
   | [] => [(d, b)]
-  | (d', b') :: r => if decay_eq_dec d' d then (d', b) :: r else (d', b') :: set_key r d b
+  | (d', b') :: r => if decay_eqb d' d then (d', b) :: r else (d', b') :: set_key r d b
   end.
 
 (* dict.setdefault(d, b) *)
@@ -302,7 +313,7 @@ Definition add_param (st : params * list warning) (kv : string * Q) : params * l
   let '(ds, ws) := st in
   let '(k, v) := kv in
   match plookup ds k with
-  | Some old => if Q_eq_dec v old then (pset ds k v, ws) else (pset ds k v, (ws ++ [(k, v, old)])%list)
+  | Some old => if Q_eqb v old then (pset ds k v, ws) else (pset ds k v, (ws ++ [(k, v, old)])%list)
   | None => (pset ds k v, ws)
   end.
 
@@ -498,3 +509,22 @@ Definition wf_transition (t : transition) : bool :=
                        | [a; b] => negb (if list_eq_dec Z.eq_dec (leaves t (e_id a)) (leaves t (e_id b))
                                          then true else false)
                        | _ => false end) (t_nodes t).
+
+(* ------------------------------------------- chains are among the registered graphs *)
+
+Definition edge_eqb (a b : edge) : bool :=
+  Z.eqb (e_id a) (e_id b) &&& oZ_eqb (e_from a) (e_from b) &&& oZ_eqb (e_to a) (e_to b).
+Definition transition_eqb (a b : transition) : bool :=
+  list_eqb Z.eqb (t_nodes a) (t_nodes b)
+  &&& list_eqb edge_eqb (t_edges a) (t_edges b)
+  &&& list_eqb (fun x y => Z.eqb (fst x) (fst y) &&& Z.eqb (s_proj2 (snd x)) (s_proj2 (snd y)))
+              (t_states a) (t_states b)
+  &&& list_eqb (fun x y => Z.eqb (fst x) (fst y) &&& interaction_eqb (snd x) (snd y))
+              (t_ints a) (t_ints b)
+  &&& list_eqb (fun x y => Z.eqb (fst x) (fst y) &&& state_eqb (snd x) (snd y))
+              (t_states a) (t_states b).
+
+(* every formulated chain is one of the graphs the selector registered (checked by vm_compute
+   in the correspondence run; hypothesis of the key-coverage theorems) *)
+Definition chains_covered (r : reaction) (chains : list transition) : bool :=
+  forallb (fun t => existsb (transition_eqb t) (flat_map snd r)) chains.
